@@ -2,7 +2,10 @@
 package kit
 
 import (
+	"encoding/binary"
 	"time"
+
+	"github.com/miscreant/miscreant.go"
 
 	"example.com/scion-time/net/ntp"
 	"example.com/scion-time/net/nts"
@@ -65,4 +68,52 @@ func ClientHeader(tx time.Time) []byte {
 	var b []byte
 	ntp.EncodePacket(&b, &p)
 	return b
+}
+
+// Ext is one NTS extension field as it goes on the wire.
+type Ext struct {
+	Type uint16
+	Body []byte
+	// RawLen, when non-zero, is written into the length field instead of 4+len(Body) padded.
+	RawLen int
+}
+
+// Seal builds hdr (48 bytes) + fields + an authenticator that verifies under key
+// (AES-SIV-CMAC-256 over everything before it, 16-byte nonce), without going
+// through the project's encoder: field bodies and lengths are free. plain is the
+// authenticator's plaintext (encrypted extension fields, e.g. cookies of a response).
+func Seal(hdr []byte, fields []Ext, plain []byte, key []byte, nonceSeed byte) []byte {
+	b := append([]byte{}, hdr[:ntp.PacketLen]...)
+	for _, f := range fields {
+		b = append(b, EncodeExt(f)...)
+	}
+	aead, err := miscreant.NewAEAD("AES-CMAC-SIV", key, 16)
+	if err != nil {
+		panic(err)
+	}
+	nonce := make([]byte, 16)
+	for i := range nonce {
+		nonce[i] = nonceSeed + byte(i)
+	}
+	ct := aead.Seal(nil, nonce, plain, b)
+	body := make([]byte, 4, 4+16+len(ct)+3)
+	binary.BigEndian.PutUint16(body, 16)
+	binary.BigEndian.PutUint16(body[2:], uint16(len(ct)))
+	body = append(body, nonce...)
+	body = append(body, ct...)
+	return append(b, EncodeExt(Ext{Type: 0x0404, Body: body})...)
+}
+
+// EncodeExt encodes one extension field (body padded to a multiple of 4).
+func EncodeExt(f Ext) []byte {
+	pad := (4 - len(f.Body)%4) % 4
+	l := 4 + len(f.Body) + pad
+	if f.RawLen != 0 {
+		l = f.RawLen
+	}
+	out := make([]byte, 4, 4+len(f.Body)+pad)
+	binary.BigEndian.PutUint16(out, f.Type)
+	binary.BigEndian.PutUint16(out[2:], uint16(l))
+	out = append(out, f.Body...)
+	return append(out, make([]byte, pad)...)
 }
